@@ -54,10 +54,11 @@ const (
 	c35FaultBadSig
 	c35FaultInvalid
 	c35FaultWrongID
+	c35FaultStore // the fetch is answered correctly, but storing the verified TRC fails (DB.InsertTRC error)
 	c35NFault
 )
 
-var c35FaultName = [...]string{"none", "fetch-error", "bad-signature", "invalid-successor", "wrong-id"}
+var c35FaultName = [...]string{"none", "fetch-error", "bad-signature", "invalid-successor", "wrong-id", "storage-error"}
 
 type c35World struct {
 	legit   map[c35ID]cppki.SignedTRC
@@ -302,7 +303,7 @@ func (f *c35Fetcher) TRC(_ context.Context, id cppki.TRCID, _ net.Addr) (cppki.S
 	want := c35ID{uint64(id.Base), uint64(id.Serial)}
 	f.calls = append(f.calls, want)
 	fault := c35FaultNone
-	if len(f.calls) == f.faultAt {
+	if len(f.calls) == f.faultAt && f.fault != c35FaultStore {
 		fault = f.fault
 	}
 	switch fault {
@@ -328,6 +329,21 @@ func (f *c35Fetcher) TRC(_ context.Context, id cppki.TRCID, _ net.Addr) (cppki.S
 		}
 	}
 	return cppki.SignedTRC{}, fmt.Errorf("TRC %v not found", want)
+}
+
+// c35FaultyDB wraps the real trust DB; the failAt-th InsertTRC call (1-based) returns an error without storing.
+type c35FaultyDB struct {
+	trust.DB
+	failAt  int
+	inserts int
+}
+
+func (d *c35FaultyDB) InsertTRC(ctx context.Context, trc cppki.SignedTRC) (bool, error) {
+	d.inserts++
+	if d.inserts == d.failAt {
+		return false, fmt.Errorf("scripted storage failure")
+	}
+	return d.DB.InsertTRC(ctx, trc)
 }
 
 // ---- reference model
@@ -496,7 +512,11 @@ func c35Replay(t *testing.T, r *mc.Run, w *c35World, hist []c35Ev) (canon string
 				}
 				id.serial = uint64(ser)
 				f := &c35Fetcher{w: w, faultAt: ev.faultAt, fault: ev.fault}
-				prov := trust.FetchingProvider{DB: d, Recurser: trust.LocalOnlyRecurser{}, Fetcher: f, Router: c34Router{}}
+				var pdb trust.DB = d
+				if ev.fault == c35FaultStore {
+					pdb = &c35FaultyDB{DB: d, failAt: ev.faultAt}
+				}
+				prov := trust.FetchingProvider{DB: pdb, Recurser: trust.LocalOnlyRecurser{}, Fetcher: f, Router: c34Router{}}
 				var nerr error
 				if pn := mc.Safely(func() {
 					nerr = prov.NotifyTRC(ctx, cppki.TRCID{ISD: 1, Base: scrypto.Version(id.base), Serial: scrypto.Version(id.serial)})
@@ -555,8 +575,8 @@ func TestC35(t *testing.T) {
 	menu := c35Menu()
 	depth := mc.Pick(5, 6)
 	r.Rule = fmt.Sprintf("breadth-first search over event histories up to length %d from the empty store; %d events: NotifyTRC with serial "+
-		"latest-1/latest/+1/+2/+3 (same base; other base with 0/+1/+2), for +k every position 1..k of a faulty fetch x {fetch error, bad vote "+
-		"signature, properly signed non-successor, TRC with another ID}; LoadTRCs from 3 directories (S1 | S2 + future S4 | other-base B3-S3 + future S5); "+
+		"latest-1/latest/+1/+2/+3 (same base; other base with 0/+1/+2), for +k every position 1..k of a faulty step x {fetch error, bad vote "+
+		"signature, properly signed non-successor, TRC with another ID, storage error = InsertTRC of the verified TRC fails (wrapping DB)}; LoadTRCs from 3 directories (S1 | S2 + future S4 | other-base B3-S3 + future S5); "+
 		"Advance(12h) at most twice. A state is the sorted list of stored TRCs (legit / corrupted variant by bytes) plus the clock; distinct key = state; "+
 		"each transition is one full replay on a fresh sqlite DB compared step by step with the reference model", depth, len(menu))
 	st := mc.BFS(mc.Space[c35Ev]{
